@@ -184,9 +184,19 @@ static void solver_case(CaseCtx& c, int T)
     cfg.describe(c.obs.params);
     c.obs.params.str("kind", "solver").i("T", T);
     c.announce("solver/T" + std::to_string(T));
-    auto g = cfg.make_api();
+    // The pointer-route constructor runs the parser defaults (omp_set_num_threads(1)) and the setter does not touch the
+    // OpenMP runtime, so the rhs build and the level caches of setup() would run serially: configure the runtime like an
+    // application would, or go through the command-line parser (which does it itself).
+    bool cli = rng.coin(0.4);
+    c.obs.params.str("route", cli ? "cli" : "api");
+    auto g = cli ? cfg.make_cli() : cfg.make_api();
+    omp_set_num_threads(T);
     g->setup();
     g->solve();
+    if (rng.coin(0.3)) { // reuse: a second setup()+solve() on the same object
+        g->setup();
+        g->solve();
+    }
     JObj sig;
     sig.str("kind", "solver").str("strategy", cfg.strategy ? "give" : "take").i("extrap", cfg.extrapolation).i("cycle", cfg.cycle).b("fmg", cfg.fmg).b("dirbc", cfg.dirbc).i("T", T).num("reduction", cfg.thread_reduction);
     c.obs.top.obj("sig", sig);
